@@ -79,6 +79,18 @@ async fn read_event_buffer(
     let mut guard = file.lock_read().await.map_err(|e| e.error)?;
 
     let offset = record.value();
+
+    // The byte range comes from length fields stored in the file,
+    // when the file is corrupted it must not make us allocate
+    // a buffer that is larger than the file itself
+    let file_len = guard.inner_mut().metadata().await?.len();
+    if offset.end < offset.start || offset.end > file_len {
+        return Err(std::io::Error::new(
+            std::io::ErrorKind::UnexpectedEof,
+            "event record exceeds the length of the event log file",
+        )
+        .into());
+    }
     let row_len = offset.end - offset.start;
 
     guard.seek(SeekFrom::Start(offset.start)).await?;
